@@ -156,7 +156,7 @@ func VerifC18_CacheSequences() {
 			distinctOverflow = true
 		}
 	}
-	steps := 4 + sym.Tier()
+	steps := 4 // (thorough tier: more capacity combinations, same length; 5 operations did not finish in an hour)
 	for st := 0; st < steps; st++ {
 		switch op := sym.Choice("op", 10); {
 		case op < 3: // lookup of [b,2], [b,2,3] or the fork [b,5]
